@@ -287,40 +287,78 @@ def message_pass(seq, part, flavour_transport=True):
         disarm_watchdog()
     if not flavour_transport:
         return
-    # through the real aiohttp transport objects (server side pump + queue + next_frame_generator)
+    # through the real message transport objects (pump + queue + next_frame_generator), every transport class
+    for role, flavour in MESSAGE_ENDS:
+        through_transport(seq, part, role, flavour, [raws])
+    # the QUIC transport is a byte stream with the 3-byte prefix: every 2-chunk split, 1-byte and 3-byte reads
+    stream = b''.join(R.prefixed(r) for r in raws)
+    plans = [[stream[:k], stream[k:]] for k in range(0, len(stream))]
+    plans.append([stream[i:i + 1] for i in range(len(stream))])
+    plans.append([stream[i:i + 3] for i in range(0, len(stream), 3)])
+    through_transport(seq, part, 'server', 'quic', plans)
+    through_transport(seq, part, 'client', 'quic', plans[len(plans) // 2:len(plans) // 2 + 1] + plans[-2:])
+
+
+# (role of the endpoint under test, link flavour): every message transport class of the repository
+MESSAGE_ENDS = (('server', 'msg'), ('client', 'msg'), ('server', 'wsk'), ('server', 'quart'), ('server', 'h3'),
+                ('server', 'chan'), ('client', 'chan'))
+TRANSPORT_NAMES = {('server', 'msg'): 'TransportAioHttpWebsocket', ('client', 'msg'): 'TransportAioHttpClient',
+                   ('server', 'wsk'): 'WebsocketsTransport', ('server', 'quart'): 'TransportQuartWebsocket',
+                   ('server', 'h3'): 'Http3TransportWebsocket', ('server', 'chan'): 'ChannelsTransport',
+                   ('client', 'chan'): 'TransportAsyncWebsocketsClient', ('server', 'quic'): 'RSocketQuicTransport',
+                   ('client', 'quic'): 'RSocketQuicTransport'}
+
+
+def through_transport(seq, part, role, flavour, plans):
+    """Feed the items through the real transport object of one endpoint; each plan is a list of messages / chunks."""
     from mc.solo import Solo
-    got = []
-    s = None
-    try:
-        arm_watchdog(10)
-        s = Solo('server', 'msg', setup=False)
-        t = s.conn.st
-        cap = len(raws) + 2
-        orig_put = t._incoming_frame_queue.put_nowait
-        count = [0]
+    raws = flatten(seq)
+    exp = expected(raws)
+    tag = '+'.join(seq)
+    name = TRANSPORT_NAMES[(role, flavour)]
+    label = 'aiohttp-transport' if (role, flavour) == ('server', 'msg') else name
+    wit = {'mode': 'message', 'seq': list(seq)}
+    for plan in plans:
+        got = []
+        s = None
+        try:
+            arm_watchdog(10)
+            s = Solo(role, flavour, setup=False)
+            t = s.conn.st if role == 'server' else s.conn.ct
+            cap = len(raws) + 2
+            q = t._incoming_frame_queue
+            orig_put = q.put_nowait
+            count = [0]
 
-        def capped(item):
-            count[0] += 1
-            if count[0] > cap:
-                raise Watchdog('incoming queue put cap exceeded')
-            got.append(describe(item))
-            return orig_put(item)
+            def capped(item, orig_put=orig_put, count=count, got=got):
+                count[0] += 1
+                if count[0] > cap:
+                    raise Watchdog('incoming queue put cap exceeded')
+                got.append(describe(item))
+                return orig_put(item)
 
-        t._incoming_frame_queue.put_nowait = capped
-        for r in raws:
-            s.peer_bytes(r)
-        clean = [d for d in got if d != 'INVALID']
-        if clean != exp:
-            part.violate('C04.message-yields-its-frame', 'C04.message-yields-its-frame | aiohttp-transport | %s' % kind_of(seq),
-                         'items %s through TransportAioHttpWebsocket: %s expected %s' % (tag, short(clean), short(exp)), wit)
-        part.evaluations += 1
-        part.traces += 1
-    except Watchdog:
-        part.violate('C04.terminates', 'C04.terminates | message-transport | %s' % kind_of(seq), 'message pump did not terminate; items %s' % tag, wit)
-    finally:
-        disarm_watchdog()
-        if s is not None:
-            s.teardown()
+            async def aput(item):
+                capped(item)
+
+            q.put_nowait = capped
+            q.put = aput  # WebsocketsTransport awaits put(); the queue is unbounded so this is the same operation
+            for piece in plan:
+                s.peer_bytes(piece)
+            clean = [d for d in got if d != 'INVALID']
+            if clean != exp:
+                part.violate('C04.message-yields-its-frame' if flavour != 'quic' else 'C04.same-frames-any-chunking',
+                             '%s | %s | %s' % ('C04.message-yields-its-frame' if flavour != 'quic' else 'C04.same-frames-any-chunking', label, kind_of(seq)),
+                             'items %s through %s (%s end), pieces %s: %s expected %s' % (tag, name, role, [len(x) for x in plan][:12], short(clean), short(exp)), wit)
+            part.evaluations += 1
+            part.traces += 1
+            part.transitions += len(plan)
+        except Watchdog:
+            part.violate('C04.terminates', 'C04.terminates | message-transport | %s' % kind_of(seq) if label == 'aiohttp-transport' else 'C04.terminates | %s | %s' % (label, kind_of(seq)),
+                         'pump of %s did not terminate; items %s' % (name, tag), wit)
+        finally:
+            disarm_watchdog()
+            if s is not None:
+                s.teardown()
 
 
 def make_units(tier):
